@@ -421,6 +421,41 @@ fn main() {
                 process(&format!("single:{}", name), &case, json!({}), true);
             }
         }
+        "spin" => {
+            // programs that never terminate by themselves: under a finite budget they must stop with
+            // out-of-energy after at most `budget` ticks (every cycle passes a tick >= 1)
+            let budget: u64 = a.get(2).map(|s| s.parse().unwrap()).unwrap_or(20_000);
+            let t0 = Sig { params: vec![], result: None };
+            let bodies: Vec<(&str, Vec<Op>)> = vec![
+                ("loop-br", vec![Op::Loop(None), Op::Br(0), Op::End, Op::End]),
+                ("loop-br_if", vec![Op::Loop(None), Op::I32Const(1), Op::BrIf(0), Op::End, Op::End]),
+                ("loop-br_table", vec![Op::Loop(None), Op::I32Const(7), Op::BrTable(vec![0], 0), Op::End, Op::End]),
+                ("loop-block-br", vec![Op::Loop(None), Op::Block(None), Op::Br(1), Op::End, Op::End, Op::End]),
+                ("loop-if-br", vec![Op::Loop(None), Op::I32Const(1), Op::If(None), Op::Br(1), Op::End, Op::End, Op::End]),
+                ("loop-locals", vec![Op::Loop(None), Op::I32Const(1), Op::LocalSet(0), Op::LocalGet(0), Op::Plain(0x1a), Op::Br(0), Op::End, Op::End]),
+                ("recursion", vec![Op::Call(0), Op::End]),
+                ("recursion-indirect", vec![Op::I32Const(0), Op::CallIndirect(0), Op::End]),
+            ];
+            for (name, body) in bodies {
+                let mut m = Module::default();
+                m.types = vec![t0.clone()];
+                m.funcs = vec![Func { ty: 0, locals: vec![VT::I32], body }];
+                if name == "recursion-indirect" { m.table = Some(1); m.elems.push((0, vec![0])); }
+                let case = Case { module: m, entries: vec![0], args: vec![] };
+                let bytes = case.module.encode();
+                for cfg in ["m0", "m1"].iter() {
+                    println!("{}", json!({"START": name, "cfg": cfg, "prog": case.to_line()}));
+                    match guarded(|| instantiate(cfg, &bytes)) {
+                        Ok(Ok(art)) => {
+                            let (ev, out, rem) = run_once(&art, "f0", &[], budget);
+                            let ticks = ev.iter().filter(|e| e.starts_with('t')).count();
+                            println!("{}", json!({"spin": name, "cfg": cfg, "prog": case.to_line(), "out": out, "rem": rem.to_string(), "nev": ev.len(), "ticks": ticks, "budget": budget.to_string()}));
+                        }
+                        other => println!("{}", json!({"spin": name, "cfg": cfg, "prog": case.to_line(), "out": format!("not instantiated: {:?}", other.map(|r| r.map(|_| ()))), "nev": 0, "ticks": 0, "budget": budget.to_string()})),
+                    }
+                }
+            }
+        }
         "run" => {
             use std::io::BufRead;
             let stdin = std::io::stdin();
